@@ -525,7 +525,8 @@ def dump_json_function(
                 sink = Path(sink)
 
             if isinstance(sink, Path):
-                with sink.open('w') as f:
+                # JSON is UTF-8, whatever the locale says
+                with sink.open('w', encoding='utf-8') as f:
                     yaml.dump(
                             obj, f, Dumper=UserDumper,
                             indent=indent, allow_unicode=not ensure_ascii)
